@@ -134,6 +134,17 @@ def _step_stmt(env, s):
             v = env[p["l"]]
         elif len(p["p"]) == 1 and p["p"][0][0] == "deref" and p["l"] in env:
             v = env[p["l"]]
+    elif k == "discr":
+        pl = rv["place"]
+        base = env.get(pl["l"], UNK) if not pl["p"] or (len(pl["p"]) == 1 and pl["p"][0][0] == "deref") else UNK
+        if isinstance(base, tuple) and base and base[0] == "enum" and _PROG[0] is not None:
+            names = _PROG[0].enums.get(base[1]) or {}
+            idx = [d for d, n in names.items() if n == base[2]]
+            own = (_PROG[0].enum_discrs(base[1]) or {}).get(base[2])
+            if own is not None:
+                v = own
+            elif len(idx) == 1:
+                v = idx[0]
     elif k == "aggr" and rv.get("kind") == "adt" and not rv["ops"]:
         v = ("enum", rv["adt"], rv["variant"])
     elif k == "aggr" and rv.get("kind") == "adt" and rv.get("adt") in ("core::ops::range::Range", "core::ops::range::RangeInclusive"):
